@@ -37,9 +37,9 @@ func (w *jsonWorld) Gen(seed uint64, tier string) *Plan {
 		cfg.Dom = []int{4, 8, 12, 16, 24, 32}[r.Intn(6)]
 	}
 	if w.prop == "C12" && usesCmp(cfg.Kind) && r.P(2, 3) {
-		cfg.Cmp = r.PickS("nat", "rev", "natbig", "diff") // mostly identity classes; coarsened comparators keep their share
+		cfg.Cmp = r.PickS("nat", "rev", "natbig", "diff", "ext") // mostly identity classes; coarsened comparators keep their share
 		if cfg.Kind == "treebidimap" {
-			cfg.VCmp = r.PickS("nat", "rev", "natbig", "diff")
+			cfg.VCmp = r.PickS("nat", "rev", "natbig", "diff", "ext")
 		}
 		if cfg.Cmp != "nat" || (cfg.VCmp != "" && cfg.VCmp != "nat") {
 			cfg.Ctor = "" // the default-comparator constructor only goes with the natural order
@@ -259,18 +259,50 @@ func (w *jsonWorld) Exec(p *Plan, st *RunStats) *Violation {
 		faultsAt[f.At] = append(faultsAt[f.At], f.Kind)
 	}
 	removals, restartsAfterRemoval, firedNonEmpty := 0, 0, 0
+	// C11: documents handed out by ToJSON are kept (the slices themselves, not copies) next to a copy of
+	// what they said; later operations and later ToJSON calls must not change a document already returned
+	type heldDoc struct {
+		doc, copy []byte
+		at        int
+	}
+	var held []heldDoc
+	checkHeld := func() {
+		for _, h := range held {
+			if string(h.doc) != string(h.copy) {
+				o.Fail("C11", "returned-document-changed", "the document returned by ToJSON at op %d was %s and has since become %s", h.at, h.copy, h.doc)
+				return
+			}
+		}
+	}
 	for _, op := range p.Ops {
 		op := op
 		st.Ops++
 		before := s.ModelSize()
 		switch op.N {
 		case "Checkpoint":
-			safely(o, op, func() { o.cur = op; checkpoint(s, o) })
+			safely(o, op, func() {
+				o.cur = op
+				if b, ok := checkpoint(s, o); ok {
+					held = append(held, heldDoc{b, append([]byte(nil), b...), op.ID})
+					if len(held) > 6 {
+						held = held[1:]
+					}
+				}
+				checkHeld()
+			})
 		case "Restart":
 			safely(o, op, func() {
 				o.cur = op
 				b, ok := checkpoint(s, o)
 				if !ok {
+					return
+				}
+				held = append(held, heldDoc{b, append([]byte(nil), b...), op.ID})
+				if len(held) > 6 {
+					held = held[1:]
+				}
+				checkHeld()
+				if o.Failed() {
 					return
 				}
 				st.Fault("crash-restart")
